@@ -244,3 +244,29 @@ def fcall_pos(name, k, i):
 
 def fcall_ret(name, k):
     return _FLOG[name][k][2]
+
+
+# the call log queried by receiver type, native side: recording stand-ins report (type name, object, method, args,
+# kwargs) through tlog(); pyvc.native clears the list before each evaluation
+_TLOG: list = []
+
+
+def tlog(tname, obj, method, args, kwargs):
+    _TLOG.append((tname, obj, method, tuple(args), dict(kwargs)))
+
+
+def _tsel(tname, m):
+    return [c for c in _TLOG if c[0] == tname and c[2] == m]
+
+
+def tcalls(tname, m):
+    return len(_tsel(tname, m))
+
+
+def tcall_recv(tname, m, k):
+    return _tsel(tname, m)[k][1]
+
+
+def tcall_pos(tname, m, k, i):
+    a = _tsel(tname, m)[k][3]
+    return a[i] if i < len(a) else None
